@@ -1,6 +1,7 @@
 (* C13 — early_stopping stops exactly per its documented no-improvement rule.
    Only statements; proofs live in proofs/C13_proofs.v. *)
 Require Import Base StopRun Converter Driver DriverObs DriverFacts StopFacts C13_proofs PyPrims PyPrimsQ DriverGen DriverTie.
+Require Import SearchGen SearchTie.
 
 (* the code's predicate (argmax position, then tolerances) equals the rule as the property words it:
    k > n and (best of last n <= best of the earlier ones, or exceeds it by < tol_abs, or by < tol_rel
@@ -63,3 +64,20 @@ Example C13_source_nonvacuous :
   g_no_change (map inject_Z [1; 3; 2; 2]) (early_of (mkEarly (Some 2) None (Some (5, 1))) false false) = Ok true
   /\ rel_wf (mkEarly (Some 2) None (Some (5, 1))).
 Proof. split; [vm_compute; reflexivity|]. intros rn rd H. inversion H. reflexivity. Qed.
+
+(* C13 for a call whose loop is the code GENERATED from search.py (model init_search, generated loop, model finish_search) *)
+Theorem C13_source_search_stops_exactly : forall (OP : optimizer) sp f clk pa pr (s : drv OP) (c : call) (g : g_search (drv OP)) k g' k' s' (cfg : early_cfg) (n : Z),
+  init_search sp clk s c = Ok (abs g k) ->
+  ties g -> stop_wf pa pr g -> stop_shape pa pr g -> gs_n_init_search g <= 0 -> gs_n_iter g = c_n_iter c -> 0 <= c_n_iter c ->
+  g_Search_search_loop (drv OP) (inner_score sp f) clk k g (c_n_iter c) = Ok (g', k') ->
+  finish_search sp (abs g' k') = Ok s' ->
+  c_stop c = mkStop None None (Some cfg) -> es_n cfg = Some n -> 1 <= n ->
+  exists sc : list score,
+    d_score_l s' = d_score_l s ++ sc /\ length (d_rows s') = (length (d_rows s) + length sc)%nat /\ zlen sc <= c_n_iter c /\
+    (forall j, (0 < j < length sc)%nat -> rule cfg (d_score_l s ++ firstn j sc) = Some false) /\
+    (zlen sc = c_n_iter c \/ rule cfg (d_score_l s ++ sc) = Some true).
+Proof.
+  intros OP sp f clk pa pr s c g k g' k' s' cfg n HI T WF SH NI NN N0 HL HF HC HN H1.
+  apply (@C13_holds OP sp f clk s s' c cfg n HC HN H1 N0). eapply source_search_is_model_search; eassumption.
+Qed.
+Print Assumptions C13_source_search_stops_exactly.
